@@ -77,6 +77,8 @@ EXC_NAMES = ['OverflowError', 'TypeError', 'ValueError', 'IndexError', 'SystemEr
              'KeyError', 'AttributeError', 'RuntimeError', 'NotImplementedError', 'OSError', 'ZeroDivisionError',
              'BufferError', 'DeprecationWarning', 'UserWarning', 'ImportError', 'Exception']
 R.const_globals = set('PyExc_' + n for n in EXC_NAMES)
+R.err_only_models = {'PyErr_Format', 'PyErr_SetString', 'PyErr_Clear', 'PyErr_NoMemory', 'PyErr_SetObject'}
+R.pure_models = set(getattr(R, 'pure_models', ())) | {'PyErr_Occurred', 'Py_INCREF', 'Py_DECREF', 'Py_XDECREF', 'Py_XINCREF'}
 
 # -- header inline functions taken from the real CPython headers (expanded, not assumed)
 R.inline |= {'Py_TYPE', 'PyType_HasFeature', 'Py_IS_TYPE', 'Py_SIZE', 'PyObject_TypeCheck',
